@@ -3,7 +3,13 @@
 prove       lake build RbModel.Props.C11 (+ axiom audit)
 correspond  arabic-consts / arabic-resolve / arabic-ctx / arabic-join / arabic-masks / arabic-mong:
             the same request through the crate's hooks and through the Lean model
-search      spec-oracle:  `arabic cls` — the crate's joining pass on representative characters of the 8 classes
+            arabic-ctxseq / arabic-joinraw: sequences of context calls on ONE buffer (raw arrays + lengths read back) and the
+            joining pass on raw context arrays with arbitrary characters BEHIND the context length
+search      context-history: the joining pass after any history of context calls == after the last calls alone; characters
+                          behind the context length change nothing
+            joining-dispatch: joining_type() of the compiled crate vs JOINING_TABLE laid out by its own offset constants
+                          (both PARSED from the source, tools/gens/arabic_dispatch.py); gc=Cf without entry -> T
+            spec-oracle:  `arabic cls` — the crate's joining pass on representative characters of the 8 classes
                           vs the Lean *spec* (Spec/Joining.lean) evaluated on the classes; exhaustive words
                           <= 6 x contexts of length 0/1 in thorough, a stride of it in quick; random long words
             known-chars:  joining class of well-known characters (independent mini-source for the table)
@@ -14,8 +20,10 @@ search      spec-oracle:  `arabic cls` — the crate's joining pass on represent
                           latn, several fall-backs, features under a language system selected (or not) by the buffer
                           language, no usable record; layouts for which the default shaper is due by design are counted
 """
-import itertools, os
+import itertools, os, sys
 import vlib
+sys.path.insert(0, os.path.join(os.path.dirname(os.path.abspath(__file__)), "..", "gens"))
+import arabic_dispatch
 
 MODULE = "RbModel.Props.C11"
 LEVEL = "proof"
@@ -27,7 +35,11 @@ ACTION_NAMES = ["isol", "fina", "fin2", "fin3", "medi", "med2", "init", "none"]
 # Well-known characters and their Unicode joining class (ArabicShaping.txt / DerivedJoiningType.txt, from memory of
 # the standard, NOT from the crate).  Used (a) as an independent spot check of the table, (b) as representatives.
 KNOWN = {
-    "U": [0x0041, 0x0020, 0x0621, 0x200C, 0x0030, 0x0674, 0x002E, 0x4E00],
+    "U": [0x0041, 0x0020, 0x0621, 0x200C, 0x0030, 0x0674, 0x002E, 0x4E00,
+          # format / punctuation characters that ArabicShaping.txt lists EXPLICITLY as non-joining (they are gc=Cf or would
+          # otherwise be derived): Arabic number signs, end of ayah, MVS, NNBSP, the four bidi isolate controls
+          0x0600, 0x0601, 0x0602, 0x0603, 0x0604, 0x0605, 0x0608, 0x060B, 0x06DD, 0x08E2, 0x1806, 0x180E, 0x202F,
+          0x2066, 0x2067, 0x2068, 0x2069],
     "L": [0xA872, 0x10ACD, 0x10D00, 0x10AD7],
     "R": [0x0627, 0x062F, 0x0631, 0x0648, 0x0622, 0x0717, 0x0718, 0x0840, 0x10AC5],
     "D": [0x0628, 0x0633, 0x064A, 0x0645, 0x0712, 0x071D, 0x07CA, 0x1820, 0x1807, 0x0841, 0x10AC0, 0xA840],
@@ -302,6 +314,232 @@ def stream_mong(ctx, r, n):
 
 
 # ------------------------------------------------------------------------------------------------
+# raw context arrays: histories of context calls on one buffer, characters behind the context length
+
+CTX_SLOTS = 5
+
+
+def _ctx_chars(ch, r, k, joiny=True):
+    """k context characters: mostly letters that join / transparent marks (what makes a stale slot matter)"""
+    out = []
+    for _ in range(k):
+        x = r.below(10)
+        if joiny and x < 5:
+            out.append(r.choice(ch.pool[r.choice("DDDLRCAS")][:20]))
+        elif x < 7:
+            out.append(r.choice(ch.pool["T"][:20]))
+        else:
+            out.append(ch.rand_cp(r))
+    return out
+
+
+def ctx_history(ch, r):
+    """-> (calls, effective pre text, effective post text).  calls = [(kind p|q|a, [cp…])…] on ONE UnicodeBuffer without
+    clear(): earlier, mostly LONGER contexts of joining letters, then a last call per side that is empty, transparent-only,
+    shorter, or arbitrary; `a` = add() of characters (zeroes the post-context length, keeps the array)."""
+    calls = []
+    for _ in range(r.range(1, 4)):
+        k = r.below(7)
+        if k < 3:
+            calls.append(("p", _ctx_chars(ch, r, r.range(1, 7))))
+        elif k < 6:
+            calls.append(("q", _ctx_chars(ch, r, r.range(1, 7))))
+        else:
+            calls.append(("a", _ctx_chars(ch, r, r.range(0, 2))))
+
+    def last(r):
+        k = r.below(8)
+        if k < 2: return []
+        if k < 4: return [r.choice(ch.pool["T"][:20]) for _ in range(r.range(1, 4))]
+        if k < 6: return _ctx_chars(ch, r, r.range(1, 2))
+        return _ctx_chars(ch, r, r.range(0, 7), joiny=r.chance(1, 2))
+    tail = []
+    if r.chance(5, 6): tail.append(("p", last(r)))
+    if r.chance(5, 6): tail.append(("q", last(r)))
+    if r.chance(1, 2): tail.reverse()
+    if r.chance(1, 6): tail.insert(r.below(len(tail) + 1), ("a", _ctx_chars(ch, r, r.range(0, 2))))
+    calls += tail
+    pre, post = [], []
+    for k, t in calls:
+        if k == "p": pre = t
+        elif k == "q": post = t
+        elif t: post = []
+    return calls, pre, post
+
+
+def ctxseq_line(calls):
+    return ("arabic ctxseq " + " ".join(f"{k}:{','.join(map(str, t))}" for k, t in calls)).rstrip()
+
+
+def joinraw_line(ch, pl, ql, pre, text, post):
+    f = lambda xs: " ".join(ch.tok(c) for c in xs)
+    return f"arabic joinraw {pl} {ql} {f(pre)} / {f(text)} / {f(post)}"
+
+
+def stream_ctxraw(ctx, shim, ch, r, n):
+    """(1) correspondence `arabic-ctxseq`: histories of set_pre_context / set_post_context / add on one buffer, raw arrays
+    and lengths read back; (2) correspondence `arabic-joinraw`: the joining pass on raw arrays with arbitrary characters
+    behind the lengths; (3) oracle `context-history` on the crate alone: the joining pass after a history == the joining
+    pass on a fresh buffer given only the effective (last) contexts; garbage behind the length == NUL behind the length."""
+    hist = [ctx_history(ch, r) for _ in range(n)]
+    seq_lines = [ctxseq_line(c) for c, _, _ in hist]
+    ctx.correspond("arabic-ctxseq", lines=seq_lines,
+                   classify=lambda ln, out: ["calls=%d" % min(6, len(ln.split()) - 2),
+                                             "prelen=" + out.split()[0], "postlen=" + (out.split()[1] if len(out.split()) > 1 else "?")])
+    seq_out = q(shim, seq_lines)
+    cases = []          # (how, description, slots pre, prelen, text, slots post, postlen, effective pre text, effective post text)
+    for (calls, pre, post), o in zip(hist, seq_out):
+        try:
+            head, a, b = o.split("/")
+            pl, ql = (int(x) for x in head.split())
+            a, b = [int(x) for x in a.split()], [int(x) for x in b.split()]
+        except ValueError:
+            ctx.violation(f"context calls on one buffer: unreadable reply {o[:100]}",
+                          {"stage": "search", "stream": "context-history", "request": ctxseq_line(calls), "observed": o[:300]})
+            continue
+        text = [r.choice(ch.pool[r.choice("DDRRASLC")][:20])] if r.chance(3, 4) else []
+        text += [ch.rand_cp(r) for _ in range(r.range(0, 4))]
+        if r.chance(3, 4):
+            text.append(r.choice(ch.pool[r.choice("DDLC")][:20]))
+        cases.append(("history", ctxseq_line(calls), a, pl, text, b, ql, pre, post))
+    # arbitrary characters behind the lengths, set directly
+    for _ in range(n):
+        pl, ql = r.below(CTX_SLOTS + 1), r.below(CTX_SLOTS + 1)
+        vis = lambda k: [r.choice(ch.pool["T"][:20]) for _ in range(k)] if r.chance(1, 2) else _ctx_chars(ch, r, k)
+        a = vis(pl) + _ctx_chars(ch, r, CTX_SLOTS - pl)
+        b = vis(ql) + _ctx_chars(ch, r, CTX_SLOTS - ql)
+        text = [r.choice(ch.pool[r.choice("DDRRASLC")][:20])] + [ch.rand_cp(r) for _ in range(r.range(0, 4))]
+        if r.chance(3, 4):
+            text.append(r.choice(ch.pool[r.choice("DDLC")][:20]))
+        cases.append(("slots", "-", a, pl, text, b, ql, a[:pl][::-1], b[:ql]))
+    ch.learn(shim, sorted({c for x in cases for c in x[2] + x[4] + x[5] + x[7] + x[8]} | {0}))
+    raw_lines = [joinraw_line(ch, pl, ql, a, t, b) for _, _, a, pl, t, b, ql, _, _ in cases]
+    nul_lines = [joinraw_line(ch, pl, ql, a[:pl] + [0] * (CTX_SLOTS - pl), t, b[:ql] + [0] * (CTX_SLOTS - ql))
+                 for _, _, a, pl, t, b, ql, _, _ in cases]
+    api_lines = [join_line(ch, pre, t, post) for _, _, _, _, t, _, _, pre, post in cases]
+
+    def classify(ln, out):
+        t = ln.split()
+        pl, ql = int(t[2]), int(t[3])
+        return ["prelen=%d" % pl, "postlen=%d" % ql, out.split()[0] if out else "empty"]
+    ctx.correspond("arabic-joinraw", lines=raw_lines, classify=classify)
+    ro, no, ao = q(shim, raw_lines), q(shim, nul_lines), q(shim, api_lines)
+    bad = stale = 0
+    fails = []
+    for (how, desc, a, pl, t, b, ql, pre, post), rl, nl, al, x, y, z in zip(cases, raw_lines, nul_lines, api_lines, ro, no, ao):
+        # non-trivial: a non-transparent character sits behind a length that hides it
+        hidden = [c for c in a[pl:] + b[ql:] if c and ch.res.get(c) != JT_NUM["T"]]
+        if hidden:
+            stale += 1
+        if x != z or x != y:
+            bad += 1
+            fails.append((len(desc) + len(rl), how, desc, rl, nl, al, x, y, z))
+    fails.sort()
+    # the shortest failing input of each kind, then the next shortest
+    picked = [next((f for f in fails if f[1] == h), None) for h in ("history", "slots")] + fails[:1]
+    seen = set()
+    for f in picked:
+        if f is None or f[3] in seen:
+            continue
+        seen.add(f[3])
+        _, how, desc, rl, nl, al, x, y, z = f
+        ctx.violation("the joining pass on a buffer with a HISTORY of context calls differs from the pass on a fresh buffer given "
+                      "only the effective (last) context of each side — it depends on what earlier set_pre_context / "
+                      "set_post_context / add calls left in the context arrays or lengths: "
+                      + (f"after the calls `{desc}` " if how == "history" else "")
+                      + f"{rl} -> {x}; the same text on a fresh buffer with only the effective context ({al}) -> {z}; "
+                      f"with NUL behind the lengths -> {y}",
+                      {"stage": "search", "stream": "context-history", "how": how, "calls": desc, "request": rl,
+                       "fresh_request": al, "nul_request": nl, "observed": x, "expected": z})
+    ctx.note_search("context-history", len(cases), stale, mismatches=bad,
+                    rule="crate alone, real arabic_joining through the hook joining_raw (context arrays and lengths set "
+                         "separately): (a) arrays and lengths as a HISTORY of public context calls on one UnicodeBuffer left them "
+                         "(1-4 earlier set_pre_context / set_post_context / add calls with up to 7 mostly joining letters, then a "
+                         "last call per side that is empty, transparent-only, shorter or arbitrary, add() interleaved), (b) "
+                         "arbitrary letters behind arbitrary lengths; oracle: == the pass on a fresh buffer given only the "
+                         "effective contexts (hook joining, public setters) and == the pass with NUL behind the lengths; "
+                         "non-trivial = a non-transparent character sits behind a length")
+
+
+# ------------------------------------------------------------------------------------------------
+# the dispatch in front of the table
+
+
+def dispatch_search(ctx, shim, ch):
+    """joining_type() of the compiled crate vs the table laid out by its own offset constants, both parsed from the
+    source; and the derivation rule for characters without an entry.  -> layout {cp: entry} (None when unreadable)"""
+    import unicodedata
+    try:
+        d = arabic_dispatch.parse()
+    except (vlib.BuildError, OSError) as e:
+        ctx.violation(f"joining table source not readable: {e}", {"stage": "search", "stream": "joining-dispatch"}, found_input=False)
+        return None
+    lay = arabic_dispatch.layout(d)
+    X = 8
+    if ctx.quick:
+        cps = set(lay)
+        for c in list(lay):
+            cps.update(range(max(c - 96, 0), min(c + 97, 0x110000)))
+        for page, lo, end, base, off, _ in d["arms"]:
+            cps.update(range(max(lo - 96, 0), min(end + 97, 0x110000)))
+            cps.update(range((page << d["shift"]), (page << d["shift"]) + 64))
+            cps.update(range(((page + 1) << d["shift"]) - 64, min(((page + 1) << d["shift"]) + 64, 0x110000)))
+        cps.update(c for c in range(0x110000) if unicodedata.category(chr(c)) == "Cf")
+    else:
+        cps = set(range(0x110000))
+    cps = sorted(c for c in cps if not 0xD800 <= c <= 0xDFFF)
+    ch.learn(shim, cps)
+    tgcs = {int(x) for x in q(shim, ["arabic tgcs"], nproc=1)[0].split()}
+    bad = nb = nn = 0
+    for c in cps:
+        want = lay.get(c, X)
+        if ch.raw[c] != want:
+            bad += 1
+            # the resolved type tells whether the slip changes behaviour at this code point (a missed entry U of a
+            # character that is derived U anyway does not): only then it is a failing input
+            behav = ch.res[c] != (want if want != X else JT_NUM["T"] if ch.gc[c] in tgcs else JT_NUM["U"])
+            if (behav and nb < 3) or (not behav and nn < 1):
+                nb, nn = nb + behav, nn + (not behav)
+                where = f"JOINING_TABLE[{[o for s_, o in d['offsets'] if s_ <= c][-1] + c - [s_ for s_, o in d['offsets'] if s_ <= c][-1]}]" if c in lay else "no table entry"
+                ctx.violation(f"joining_type(U+{c:04X}) returns {ch.raw[c]} but the table's own layout gives U+{c:04X} "
+                              f"{'the entry ' + str(want) + ' (' + where + ')' if c in lay else 'no entry (X = 8)'}: a range test of "
+                              f"the dispatch does not cover exactly its slice of JOINING_TABLE",
+                              {"stage": "search", "stream": "joining-dispatch", "request": f"arabic jt {c}", "what_field": "raw",
+                               "expected": want, "observed": ch.raw[c], "behavioural": behav}, found_input=behav)
+    # derivation for characters WITHOUT an explicit entry: Mn / Me / Cf -> T, everything else U; WITH one: the entry
+    fmt_gc = ch.gc.get(0x200E, ch.gc.get(0x00AD))
+    cf = [c for c in cps if unicodedata.category(chr(c)) == "Cf" and ch.gc[c] == fmt_gc]
+    bad2 = 0
+    for c in cps:
+        e = lay.get(c, X)
+        if e != X:
+            want = e
+        elif c in ch.gc and ch.gc[c] == fmt_gc and unicodedata.category(chr(c)) == "Cf":
+            want = JT_NUM["T"]
+        else:
+            continue
+        if ch.res[c] != want:
+            bad2 += 1
+            if bad2 <= 2:
+                ctx.violation(f"U+{c:04X} ({unicodedata.category(chr(c))}) resolves to joining type {ch.res[c]}, expected {want} "
+                              f"({'its explicit table entry' if e != X else 'a format character without table entry is Transparent'})",
+                              {"stage": "search", "stream": "joining-dispatch", "request": f"arabic jt {c}", "what_field": "resolved",
+                               "expected": want, "observed": ch.res[c]})
+    explicit_cf = sorted(c for c in cf if lay.get(c, X) != X)
+    ctx.note_search("joining-dispatch", len(cps), len(lay), mismatches=bad + bad2, format_characters=len(cf),
+                    format_characters_with_entry=["%04X:%d" % (c, lay[c]) for c in explicit_cf],
+                    arms=[f"{lo:04X}..{end - 1:04X}@{off}" for _, lo, end, _, off, _ in d["arms"]],
+                    rule="JOINING_TABLE, the JOINING_OFFSET_* constants and the range tests of joining_type() are PARSED from "
+                         "ot_shaper_arabic_table.rs on every run; reference = the table laid out by the offset constants alone (tile k "
+                         "starts at the code point in the constant's name and runs to the next constant / the table's end; no range "
+                         "bound is used); compared with joining_type() of the compiled crate (hook) on every code point of every tile "
+                         "and arm +-96, the page borders and every gc=Cf code point (ALL code points in thorough): raw entry equal, "
+                         "outside the tiles X; resolved type = the explicit entry where there is one, T for every gc=Cf code point "
+                         "without one (CPython unicodedata AND the crate's own category); non-trivial = code points with an entry")
+    return lay
+
+
+# ------------------------------------------------------------------------------------------------
 # search: the Lean spec as an oracle on the crate
 
 
@@ -420,6 +658,7 @@ def run(ctx):
     shim = vlib.build_harness()
     model = vlib.build_model()
     ch = Chars(ctx, shim)
+    lay = dispatch_search(ctx, shim, ch)
 
     ctx.correspond("arabic-consts", lines=["arabic table", "arabic consts", "arabic tgcs", "arabic fvs"])
     stream_resolve(ctx, shim, ch, ctx.rng("resolve"), ctx.budget(20000, 100000), exhaustive=not ctx.quick)
@@ -427,6 +666,7 @@ def run(ctx):
     stream_join(ctx, shim, ch, ctx.rng("join"), ctx.budget(40000, 600000))
     stream_masks(ctx, shim, ch, ctx.rng("masks"), ctx.budget(10000, 150000))
     stream_mong(ctx, ctx.rng("mong"), ctx.budget(5000, 50000))
+    stream_ctxraw(ctx, shim, ch, ctx.rng("ctxraw"), ctx.budget(6000, 100000))
 
     r = ctx.rng("oracle")
     if ctx.quick:
@@ -442,7 +682,7 @@ def run(ctx):
     spec_oracle(ctx, shim, model, "spec-oracle-random", random_long_lines(ch, ctx.rng("long"), ctx.budget(30000, 500000)),
                 "random words of length <= 40 with contexts of 0..7 classes (API keeps 5), random representatives")
     metamorphic(ctx, shim, ch, ctx.rng("meta"), ctx.budget(10000, 150000))
-    shape_e2e(ctx, shim, model, ch, ctx.rng("e2e"), ctx.budget(20000, 300000), ctx.budget(26000, 400000))
+    shape_e2e(ctx, shim, model, ch, ctx.rng("e2e"), ctx.budget(20000, 300000), ctx.budget(26000, 400000), lay or {})
 
 
 # ------------------------------------------------------------------------------------------------
@@ -470,8 +710,13 @@ class ScriptData:
     pass
 
 
-def joining_scripts(ctx, shim, ch, r, cap):
-    """-> list of ScriptData, one per script that owns a letter of joining type L/R/D/Alaph/Dalath-Rish"""
+def joining_scripts(ctx, shim, ch, r, cap, lay):
+    """-> list of ScriptData, one per script that owns a letter of joining type L/R/D/Alaph/Dalath-Rish.
+    The CLASS of a character is its explicit entry in the PARSED table (`lay`: tools/gens/arabic_dispatch.py, the table laid
+    out by its own offset constants) where it has one, else what the crate derives (gc rule) — not what joining_type()
+    of the compiled crate hands out for it."""
+    import unicodedata
+    ref = lambda c: lay[c] if lay.get(c, 8) != 8 else ch.res[c]
     win = set()
     for s, e, _ in ch.ranges:
         win.update(range(s & ~0x7F, (e | 0x7F) + 1))
@@ -484,8 +729,13 @@ def joining_scripts(ctx, shim, ch, r, cap):
         iso[c], own[c] = tag_str(int(a)), tag_str(int(b))
     names = []
     for c in cands:
-        if ch.res[c] in (1, 2, 3, 4, 5) and iso[c] not in NEUTRAL_ISO and iso[c] not in names:
+        if ref(c) in (1, 2, 3, 4, 5) and iso[c] not in NEUTRAL_ISO and iso[c] not in names:
             names.append(iso[c])
+    # characters with an EXPLICIT non-transparent entry that are not letters (format characters, punctuation, spaces,
+    # numbers: U+200C, 200D, 202F, 2066..2069, 0600..0605, 06DD, 180E, ...): every one of them goes into the alphabet of
+    # its own script, those of no script into every alphabet
+    special = [c for c in cands if lay.get(c, 8) not in (8, 7) and unicodedata.category(chr(c))[0] != "L"
+               and unicodedata.category(chr(c)) != "Cn"]
     out = []
     for name in names:
         sd = ScriptData()
@@ -507,7 +757,7 @@ def joining_scripts(ctx, shim, ch, r, cap):
         al = {}
         for c in cands:
             if iso[c] == name:
-                al.setdefault(CLASS_OF_RES[ch.res[c]], []).append(c)
+                al.setdefault(CLASS_OF_RES[ref(c)], []).append(c)
         sd.n_letters = sum(len(v) for k, v in al.items() if k in "LRDAS")
         for k in list(al):
             v = al[k]
@@ -520,16 +770,18 @@ def joining_scripts(ctx, shim, ch, r, cap):
         sd.foreign = set()
         for k in "LRD":
             if k not in al:
-                other = [c for c in cands if CLASS_OF_RES[ch.res[c]] == k and iso[c] not in NEUTRAL_ISO]
+                other = [c for c in cands if CLASS_OF_RES[ref(c)] == k and iso[c] not in NEUTRAL_ISO]
                 if other:
                     al[k] = sorted(set(r.sample(other, 2)))
                     sd.foreign.update(al[k])
         cknown = set(KNOWN["C"])
-        for c in COMMON_EXTRAS:
-            k = CLASS_OF_RES[ch.res[c]]
+        sd.specials = [c for c in special if iso[c] == name or iso[c] in NEUTRAL_ISO[:2]]
+        for c in sd.specials + COMMON_EXTRAS:
+            k = CLASS_OF_RES[ref(c)]
             if k == "D" and c in cknown:
                 k = "C"
-            al.setdefault(k, []).append(c)
+            if not any(c in v for v in al.values()):
+                al.setdefault(k, []).append(c)
         # the normalizer must leave the text alone: drop transparent marks that compose with a character of the alphabet
         allc = [c for v in al.values() for c in v]
         marks = al.get("T", [])
@@ -542,7 +794,9 @@ def joining_scripts(ctx, shim, ch, r, cap):
                 del al["T"]
         sd.alpha = al
         sd.letters = [c for k in CLASSES for c in al.get(k, [])]
-        sd.own_ok = all(own[c] == name for c in sd.letters if iso[c] == name and ch.res[c] in (1, 2, 3, 4, 5))
+        sd.class_of = {c: k for k in CLASSES for c in al.get(k, [])}
+        sd.specials = [c for c in sd.specials if c in sd.class_of]
+        sd.own_ok = all(own[c] == name for c in sd.letters if iso[c] == name and ref(c) in (1, 2, 3, 4, 5))
         sd.strong = {c for c in sd.letters if iso[c] == name}
         out.append(sd)
     return out
@@ -630,7 +884,7 @@ def xlang(l):
     return "x" + l.encode().hex()
 
 
-def shape_e2e(ctx, shim, model, ch, r, n, per_script):
+def shape_e2e(ctx, shim, model, ch, r, n, per_script, lay):
     """End to end through the public shape(), for EVERY script that owns joining letters in the crate's table: per
     script a family of fonts with 7 positional features mapping every letter to a distinct glyph per form, one font per
     ScriptList layout (`e2e_variants`: the script's own OpenType tag(s); only 'DFLT' / 'dflt' / 'latn'; several
@@ -643,7 +897,7 @@ def shape_e2e(ctx, shim, model, ch, r, n, per_script):
     except ImportError:
         ctx.cov.setdefault("not_run", []).append("shape-e2e: tools/fontbuild.py not available")
         return
-    scripts = joining_scripts(ctx, shim, ch, r, ctx.budget(24, 400))
+    scripts = joining_scripts(ctx, shim, ch, r, ctx.budget(24, 400), lay)
     # language systems: BCP 47 language -> its first OpenType language tag, by the crate's own mapping
     lt = q(shim, [f"tagslang {xlang(l)}" for l in LANG_POOL + [OTHER_LANG]], nproc=1)
     ltag = [tag_str(int(o.split()[1].split(",")[0])) if o.startswith("ok ") else None for o in lt]
@@ -668,10 +922,11 @@ def shape_e2e(ctx, shim, model, ch, r, n, per_script):
                 for post in ctxs:
                     for ln in range(1, mx + 1):
                         for w in itertools.product(cl, repeat=ln):
-                            cases.append((sd, var, sd.dir, True, pre, "".join(w), post, "match" if var.lang else None))
+                            cases.append((sd, var, sd.dir, True, pre, "".join(w), post, "match" if var.lang else None, None))
         info[sd.iso] = {"ot": [tag_str(t) for t in sd.ot], "dir": sd.dir, "shaper": sd.shaper, "classes": "".join(cl),
                         "letters_in_font": len(sd.letters), "joining_letters_of_script": sd.n_letters,
                         "borrowed": ["%04X" % c for c in sorted(sd.foreign)],
+                        "specials": ["%04X:%s" % (c, sd.class_of[c]) for c in sd.specials],
                         "exhaustive_len": lens[vs[0].name], "guessable": sd.own_ok,
                         "variants": {v.name: {"chosen": v.chosen, "exhaustive_len": lens[v.name],
                                               **({"language": list(v.lang)} if v.lang else {})} for v in vs}}
@@ -685,14 +940,34 @@ def shape_e2e(ctx, shim, model, ch, r, n, per_script):
         d = "t" if sd.shaper != "arabic" and r.chance(1, 5) else sd.dir
         lm = r.choice(["match", "match", "absent", "other"]) if var.lang else None
         cases.append((sd, var, d, not r.chance(1, 4), rand_word(r, r.choice([0, 1, 2, 5]), wts),
-                      rand_word(r, r.choice([5, 8, 12, 30]), wts) or "D", rand_word(r, r.choice([0, 1, 2, 5]), wts), lm))
+                      rand_word(r, r.choice([5, 8, 12, 30]), wts) or "D", rand_word(r, r.choice([0, 1, 2, 5]), wts), lm, None))
+    # directed: EVERY special character of the alphabet (explicit non-transparent table entry, not a letter) between two
+    # letters that could join each other — inside the text, as the nearest pre-context character, as the nearest
+    # post-context character, and with transparent marks around it
+    n_special = 0
+    for sd in scripts:
+        left = [k for k in "DLC" if k in sd.alpha]
+        right = [k for k in "DRCAS" if k in sd.alpha]
+        tm = sd.alpha.get("T", [])
+        word = lambda xs: "".join(sd.class_of[c] for c in xs)
+        for var in [v for v in variants[sd.iso] if v.main or (v.chosen and not v.lang and not e2e_exempt(sd, sd.dir, v.chosen))][:3]:
+            for sp in sd.specials if left and right else []:
+                for _ in range(2 if var.main else 1):
+                    a, b = r.choice(sd.alpha[r.choice(left)]), r.choice(sd.alpha[r.choice(right)])
+                    forms_ = [([], [a, sp, b], []), ([a, sp], [b], []), ([], [a], [sp, b])]
+                    if tm:
+                        t1, t2 = r.choice(tm), r.choice(tm)
+                        forms_ += [([], [a, t1, sp, t2, b], []), ([a, sp, t1], [t2, b], []), ([], [a, t1], [t2, sp, b])]
+                    for p_, t_, q__ in forms_:
+                        n_special += 1
+                        cases.append((sd, var, sd.dir, True, word(p_), word(t_), word(q__), None, (p_, t_, q__)))
     fid = {(sd.iso, v.name): f"c11e2e{sd.iso}v{i}" for sd in scripts for i, v in enumerate(variants[sd.iso])}
     fontlines = {(sd.iso, v.name): f"font {fid[(sd.iso, v.name)]} " + fontbuild.hexfont(e2e_font(sd, v))
                  for sd in scripts for v in variants[sd.iso]}
     lines, oracle, meta, rlines = [], [], [], []
-    for sd, var, d, explicit, pre, w, post, lm in cases:
+    for sd, var, d, explicit, pre, w, post, lm, forced in cases:
         pick = lambda word: [r.choice(sd.alpha[x]) for x in word]
-        p, t, q_ = pick(pre), pick(w), pick(post)
+        p, t, q_ = forced if forced else (pick(pre), pick(w), pick(post))
         if not explicit:
             first = next((c for c in t if c in sd.strong or c in sd.foreign), None)
             if first not in sd.strong:
@@ -711,7 +986,15 @@ def shape_e2e(ctx, shim, model, ch, r, n, per_script):
                  f"script {sd.iso}", f"dir {sd.dir}", f"flags {r.choice([20, 0, 3])}", f"level {r.below(3)}"]
         if r.chance(2, 3):
             early.append("shape -")
-        req = ([f"pre {hx(p)}"] if p else []) + [f"push {hx(t)}"] + ([f"post {hx(q_)}"] if q_ else []) + [f"dir {d}"] + \
+        # … and in every second request the contexts are set SEVERAL times on the recycled buffer before the declared ones:
+        # longer join-causing contexts first (the declared one, possibly empty, is the last call of its side)
+        pre_ops, post_ops = ([f"pre {hx(p)}"] if p else []), ([f"post {hx(q_)}"] if q_ else [])
+        if r.chance(1, 2):
+            pre_ops = [f"pre {hx(jl(r.range(min(len(p) + 1, 5), 5)))}" for _ in range(r.range(1, 2))] + [f"pre {hx(p)}"]
+            post_ops = [f"post {hx(jl(r.range(min(len(q_) + 1, 5), 5)))}" for _ in range(r.range(1, 2))] + [f"post {hx(q_)}"]
+            if r.chance(1, 3):
+                pre_ops, post_ops = post_ops[:1] + pre_ops, post_ops[1:]
+        req = pre_ops + [f"push {hx(t)}"] + post_ops + [f"dir {d}"] + \
               ([f"script {sd.iso}"] if explicit else []) + ([f"lang {lang}"] if lang != "-" else []) + ["flags 20", "level 1"]
         rlines.append(f"lc #{fid[(sd.iso, var.name)]} ; " + " ; ".join(early + ["clear"] + req + ["shape -", "dump"]))
         oracle.append(f"arabic cls 0,0,0,0,0,0,0,0 {pre or '-'} {w} {post or '-'}")
@@ -825,11 +1108,13 @@ def shape_e2e(ctx, shim, model, ch, r, n, per_script):
                          "same script with 1-5 join-causing letters as pre-context and as post-context (2/3 shaped and recycled "
                          "with GlyphBuffer::clear(), 1/3 only filled and cleared with UnicodeBuffer::clear()), then the request "
                          "filled with push_str; set_pre_context / set_post_context are called only for a non-empty declared "
-                         "context.  Judged like shape-e2e: form decoded from the glyph id == Lean spec on the text and its "
-                         "declared context")
+                         "context; in every second request the contexts are first set to LONGER join-causing texts (1-2 "
+                         "extra set_pre_context / set_post_context calls on the recycled buffer) and then to the declared ones, "
+                         "an empty declared context being set explicitly.  Judged like shape-e2e: form decoded from the glyph id "
+                         "== Lean spec on the text and its declared context")
     ctx.note_search("shape-e2e", len(lines), len(lines) - sum(unjudged.values()), mismatches=bad, mismatches_per_script=nbad,
                     mismatches_per_variant=nbadvar, per_script=per, per_variant=pervar, counted_not_judged=unjudged,
-                    modes=modes, scripts=info,
+                    modes=modes, scripts=info, directed_special_cases=n_special,
                     forms={ACTION_NAMES[a] if 0 <= a < 8 else str(a): v for a, v in sorted(dist.items())},
                     rule="public shape(), for every script that owns a joining letter of the crate's table (scripts by the "
                          "Unicode Script property, letters sampled per class from the table, plus SPACE/ZWNJ/ZWJ/TATWEEL/LRM/CGJ), on "
@@ -840,6 +1125,12 @@ def shape_e2e(ctx, shim, model, ch, r, n, per_script):
                          "selecting it, absent, or another; only an unrelated script.  All class words up to the per-layout length x "
                          "contexts of length 0/1 (explicit script, native horizontal direction) plus random words <= 30 with "
                          "contexts <= 5 (1/4 with guessed script, 1/5 vertical for the scripts not handled by the Arabic shaper). "
+                         "CLASS of a character = its explicit entry in the table PARSED from the source and laid out by the table's own "
+                         "offset constants (else the gc derivation), not what the compiled joining_type() hands out.  Every character "
+                         "with an explicit non-transparent entry that is not a letter (ZWNJ, ZWJ, NNBSP, the bidi isolates, Arabic "
+                         "number signs, MVS, script numbers ...: `specials` per script) is in the alphabet of its script (of every "
+                         "script when it has none) and is shaped, directed, between two letters that could join: inside the text, as "
+                         "nearest pre-context and as nearest post-context character, with and without transparent marks around it. "
                          "Judged: form decoded from the glyph id == Lean spec (+ FVS copy for Mongolian), resp. no form at all "
                          "when the language system with the features is not selected.  Counted, not judged (non-trivial = judged): "
                          "layouts where the default shaper is due by design — 'DFLT' chosen for a script other than Arabic, 'latn' "
@@ -860,6 +1151,20 @@ def replay(ctx, rp):
         print("recycled request:", rp["request"]); print("recycled buffer :", rec); print("fresh buffer    :", o[2])
         print("spec forms      :", rp["expected"], "for", rp["oracle"])
         return 0 if rec != rp["observed"] else 1
+    if rp.get("stream") == "context-history":
+        a, b, c = q(shim, [rp["request"], rp["fresh_request"], rp["nul_request"]], nproc=1)
+        if rp.get("calls", "-") != "-":
+            print("context calls on one buffer:", rp["calls"], "->", q(shim, [rp["calls"]], nproc=1)[0])
+        print("raw arrays + lengths :", rp["request"], "->", a)
+        print("NUL behind the length:", rp["nul_request"], "->", c)
+        print("fresh buffer, last context only:", rp["fresh_request"], "->", b)
+        return 0 if a == b == c else 1
+    if rp.get("stream") == "joining-dispatch":
+        a = q(shim, [rp["request"]], nproc=1)[0]
+        raw, res, gc = (int(x) for x in a.split(":"))
+        got = raw if rp.get("what_field") == "raw" else res
+        print(rp["request"], "->", a, f"({rp.get('what_field')} = {got}, expected {rp['expected']})")
+        return 0 if got == rp["expected"] else 1
     if rp.get("stream") == "masks-oracle":
         a = strip_flags(q(shim, [rp["request"]], nproc=1)[0])
         print("impl    :", a); print("expected:", rp["expected"])
